@@ -113,7 +113,8 @@ def run(h, case):
             uz.zscore_array = saved
     else:
         from .common import slice_points
-        curve = [[Fr(a), Fr(b)] for a, b in MRC[case['curve']]]
+        src = MRC[case['curve']] if isinstance(case['curve'], int) else case['curve']
+        curve = [[Fr(str(a)), Fr(str(b))] for a, b in src]
         X, Y = slice_points(h, curve, case['pos'])
         for i in case['pos']:
             h.assume(Y[i] <= 1, 'y in [0,1]')
@@ -136,6 +137,20 @@ def run(h, case):
     if case['layer'] == 'L0':
         h.prove(not h.writes(), 'arguments unmodified')
     return res
+
+
+def realise(case, rnd):
+    """concretiser for abstract (free z-score) counterexamples: the real Z-method on small random curves with heights on a 1/20 grid"""
+    n = max(case['n'], 4)
+    for _ in range(200):
+        m = rnd.choice((n, n + 1, n + 2))
+        ys = [Fr(rnd.randint(0, 20), 20) for _ in range(m)]
+        if len(set(ys)) < 2:
+            continue
+        xs = list(range(m)) if rnd.random() < 0.6 else sorted(rnd.sample(range(3 * m), m))
+        c = [[x, str(y)] for x, y in zip(xs, ys)]
+        yield dict(layer='L0', curve=c, pos=[], dx=case['dx'], dy=case['dy'], dz=case['dz'], x_max=case.get('x_max'), y_range=case.get('y_range'),
+                   realised_from=dict(n=case['n'])), {}
 
 
 LEVEL_TEXT = ('Bounded symbolic model checking of the real zmethod.knees/getPoints/map_index (main loop, band filters, grouping and final sweep run as written). L1: heights in [0,1] '
